@@ -141,21 +141,24 @@ def sched_cases(ctx, seed, tier, broken):
     out = []
     if tier == "quick" and not broken:
         for (w, rd) in FIXED_PROGS[:4]:
-            out.append("X 2 %s / %s / E 60000" % (w, rd))
-        for (w, rd) in FIXED_PROGS[4:] + sched_programs(r, 16):
-            out.append("X %d %s / %s / S %d 3000" % (r.choice([1, 2, 2, 3]), w, rd, r.randrange(1 << 30)))
+            out.append("X 2 %s / %s / E 1200000" % (w, rd))
+        for (w, rd) in FIXED_PROGS[4:] + sched_programs(r, 20):
+            out.append("X %d %s / %s / S %d 40000" % (r.choice([1, 2, 2, 3]), w, rd, r.randrange(1 << 30)))
     elif tier == "quick":
         for (w, rd) in FIXED_PROGS:
             out.append("X 2 %s / %s / E 400000" % (w, rd))
         for (w, rd) in sched_programs(r, 24):
             out.append("X %d %s / %s / S %d 20000" % (r.choice([1, 2, 2, 3]), w, rd, r.randrange(1 << 30)))
     else:
+        # exhaustive: every schedule (incl. every stale-load choice) of programs of <= 3 calls per side, ring size 4
         for (w, rd) in FIXED_PROGS:
-            out.append("X 2 %s / %s / E 40000000" % (w, rd))
-        for (w, rd) in sched_programs(r, 40):
-            out.append("X 2 %s / %s / E 6000000" % (w, rd))
-        for (w, rd) in sched_programs(r, 40, maxcalls=5):
-            out.append("X %d %s / %s / S %d 200000" % (r.choice([1, 2, 3]), w, rd, r.randrange(1 << 30)))
+            out.append("X 2 %s / %s / E 60000000" % (w, rd))
+        for (w, rd) in sched_programs(r, 150 if not broken else 40):
+            out.append("X 2 %s / %s / E 60000000" % (w, rd))
+        for (w, rd) in sched_programs(r, 30 if not broken else 10):
+            out.append("X %d %s / %s / E 20000000" % (r.choice([1, 3]), w, rd))
+        for (w, rd) in sched_programs(r, 60 if not broken else 20, maxcalls=6):
+            out.append("X %d %s / %s / S %d 1500000" % (r.choice([1, 2, 3]), w, rd, r.randrange(1 << 30)))
     return out
 
 
